@@ -100,6 +100,25 @@ def _register_areas():
         except ModuleNotFoundError:
             continue
         m.register(PROPS)
+    # a property with a server half and a client half is decided by both
+    for base in ("C14", "C18", "C20"):
+        half = PROPS.pop(base + "c", None)
+        if half is None:
+            continue
+        if base not in PROPS:
+            PROPS[base + "c"] = half      # server half not there (yet): keep the client half addressable
+            continue
+        srv = PROPS[base]
+
+        def both(ctx, a=srv["run"], b=half["run"]):
+            ca = a(ctx)
+            cb = b(ctx)
+            out = merge_cov({"server": ca, "client": cb})
+            out["rule"] = "server role: " + ca.get("rule", "") + " || client role: " + cb.get("rule", "")
+            out["traces_validated_against_impl"] = ca.get("traces_validated_against_impl", 0) + cb.get("traces_validated_against_impl", 0)
+            return out
+        PROPS[base] = dict(srv, modules=[srv["module"], half["module"]], run=both,
+                           assumptions=srv.get("assumptions", []) + half.get("assumptions", []))
 
 
 PROPS.update({
